@@ -42,6 +42,17 @@ def rand_row(rng, W, wide_ok, density):
         else:
             row[x] = (rng.choice(NARROW), st)
             x += 1
+    if rng.random() < 0.12:
+        # content beyond the right border (a float with explicit left+width sticking out);
+        # usually the visible part then reaches the last column
+        if rng.random() < 0.7:
+            for x2 in range(max(0, W - rng.randint(1, 3)), W):
+                if x2 not in row and not (x2 - 1 in row and row[x2 - 1][0] in WIDE):
+                    row[x2] = (rng.choice(NARROW + [" "]), rand_style(rng))
+        st2 = rand_style(rng)
+        for x2 in range(W, W + rng.randint(1, 4)):
+            row[x2] = (rng.choice(NARROW + [" "]), st2 if rng.random() < 0.7 else rand_style(rng))
+        return row
     if rng.random() < 0.25:
         # trailing blanks: styled-invisible or styled-visible
         st = rng.choice(STYLES_PLAIN + STYLES_VIS)
@@ -199,3 +210,28 @@ def blank_run_specs(rng):
                                "ops": [("render", 0, False, W, 2, scr(r)) for r in seq]}
                     yield {"fs": fs, "cfgs": [(1, depth, 0)],
                            "ops": [("render", 0, False, W, 3, scr(base, 2, more)), ("render", 0, False, W, 3, scr(more, 2, base))]}
+
+
+def overhang_specs(rng):
+    """Rows with cells at column indices >= terminal width (a float overhanging the
+    right edge), visible part up to the last column or shorter, re-rendered
+    unchanged / changed / shrunk: the clamps min(width-1, get_max_column_index)."""
+    for W in (1, 2, 3, 5):
+        for vis in (0, 1, 2):                 # how many of the last visible columns are filled
+            for over in (1, 3):
+                for st in ("", "bg:#ff0000", "bold"):
+                    for fs in (False, True):
+                        row = {x: (rng.choice(NARROW), st) for x in range(max(0, W - vis), W)}
+                        row.update({x: (rng.choice(NARROW + [" "]), st) for x in range(W, W + over)})
+                        row2 = dict(row)
+                        row2[W + over - 1] = ("q", "underline")
+                        row3 = {x: c for x, c in row.items() if x < W - 1}
+                        row4 = dict(row)
+                        if W >= 2:
+                            row4[0] = ("k", "reverse")
+
+                        def scr(r):
+                            return {"height": 1, "show_cursor": True, "cursor": (rng.randrange(W), 0), "rows": {0: dict(r)}, "zwe": {}}
+                        for seq in ([row, row], [row, row2, row], [row, row3, row], [row3, row, row4], [row4, row]):
+                            yield {"fs": fs, "cfgs": [(0, rng.choice([1, 8, 24]), 0)],
+                                   "ops": [("render", 0, False, W, 2, scr(r)) for r in seq]}
